@@ -100,7 +100,9 @@ def zz(n):
     return "%d" % n if n >= 0 else "(%d)" % n
 
 
-def run_post(ck):
+def run_post(ck, cov=None):
+    """cov: when given (run_post runs in a thread beside the SQL parts), the coverage counters are added there and merged by the caller"""
+    cov = ck.coverage if cov is None else cov
     if not ck.go_build("metricpost"):
         ck.obligation("harness metricpost builds against the repository", False, ck.build_out[-1500:])
         return
@@ -159,8 +161,8 @@ def run_post(ck):
             hist[k] = hist.get(k, 0) + 1
         if size(c) >= 3 and not c["zero"]:
             distinct.add(json.dumps([c["from_ns"], c["to_ns"], c["step_ns"], c["dur_ns"], c["in"]]))
-    ck.coverage["evaluations"] += len(cases)
-    ck.coverage["distinct_nontrivial"] += len(distinct)
+    cov["evaluations"] += len(cases)
+    cov["distinct_nontrivial"] += len(distinct)
     ck.extra["post_input_classes"] = hist
     ck.add_samples([{"post": {k: c[k] for k in ("from_ns", "to_ns", "step_ns", "dur_ns")}, "in": c["in"][:2], "out": (c["out"] or [])[:1]} for c in cases[:1]])
 
@@ -705,7 +707,24 @@ def run(ck):
         return
     ck.coq_props()
     scan_source(ck)
-    run_sql(ck)
-    run_exec(ck)
-    run_post(ck)
+    # the post-processor part (one long single-threaded coqc evaluation) runs beside the SQL parts
+    import threading
+    cov = {"evaluations": 0, "distinct_nontrivial": 0}
+    err = []
+
+    def post():
+        try:
+            run_post(ck, cov)
+        except Exception as e:          # reported below: a crash of the thread must not pass silently
+            err.append(repr(e))
+    t = threading.Thread(target=post)
+    t.start()
+    try:
+        run_sql(ck)
+        run_exec(ck)
+    finally:
+        t.join()
+    ck.obligation("post-processor part ran to completion", not err, "; ".join(err))
+    ck.coverage["evaluations"] += cov["evaluations"]
+    ck.coverage["distinct_nontrivial"] += cov["distinct_nontrivial"]
     report_text_mismatch(ck)
